@@ -125,6 +125,11 @@ package aper
 //@ requires inv: vcInv(pd)
 //@ ensures inv: vcInv(pd) && pd.byteOffset >= old(pd.byteOffset)
 //@ ensures refuse: vc.Imp(extensed || lowerBoundPtr == nil || upperBoundPtr == nil, err != nil)
+// X.691 14.2 with 11.5.4: an ENUMERATED with a single value occupies no bits; with r values (2 <= r <= 255) a field of FieldWidth(r) bits
+//@ requires bounds: lowerBoundPtr == nil || upperBoundPtr == nil || (*lowerBoundPtr >= 0 && *lowerBoundPtr <= *upperBoundPtr && *upperBoundPtr < 1<<32)
+//@ let r := vcRange(lowerBoundPtr, upperBoundPtr)
+//@ ensures single: vc.Imp(err == nil && r == 1, value == 0 && pd.byteOffset == old(pd.byteOffset) && pd.bitsOffset == old(pd.bitsOffset))
+//@ ensures field: vc.Imp(err == nil && r >= 2 && r <= 255, 8*pd.byteOffset+uint64(pd.bitsOffset) == 8*old(pd.byteOffset)+uint64(old(pd.bitsOffset))+uint64(per.FieldWidth(r)))
 //@ assigns &pd.byteOffset, &pd.bitsOffset
 
 //@ func (*perBitData).getChoiceIndex
@@ -255,6 +260,10 @@ package aper
 //@ let b0 := vcBitLen(pd)
 //@ ensures refuse: vc.Imp(lowerBoundPtr == nil || upperBoundPtr == nil || int64(value) > *upperBoundPtr || int64(value) < *lowerBoundPtr, result != nil)
 //@ ensures einv: vcEInv(pd) && vcBitLen(pd) >= b0
+// bits on the wire (X.691 14.2/14.3 with 11.5.4, 11.5.7.1): the extension bit of an extensible type, then nothing for a single value, FieldWidth(r) bits for r <= 255 values
+//@ let r := vcRange(lowerBoundPtr, upperBoundPtr)
+//@ ensures single: vc.Imp(result == nil && r == 1, vcBitLen(pd) == b0+vcB2U(extensive))
+//@ ensures field: vc.Imp(result == nil && r >= 2 && r <= 255, vcBitLen(pd) == b0+vcB2U(extensive)+uint64(per.FieldWidth(r)))
 //@ assigns &pd.bytes, &pd.bitsOffset
 
 // INTEGER (X.691 12): a value below the lower bound, or above the upper bound of a non-extensible
